@@ -16,7 +16,7 @@ VARIABLES l, cur, bad
 None == [none |-> TRUE]
 Kinds == {"Default", "Construct", "View", "Copy", "Move", "Swap", "Assign", "SelfAssign", "Resize", "GrowBy", "Reserve",
           "SetOffset", "Recycle", "Fill", "Iota", "RIota", "SetAt", "GetAt", "Set", "Get", "PtrSet", "ThrLo", "ThrUp",
-          "VAdd", "VSub", "VMul", "VDiv", "BAdd", "BSub", "BMul", "BDiv", "SAdd", "SSub", "SMul", "SDiv", "Sapyb", "XapybV", "MemSet", "Nop"}
+          "VAdd", "VSub", "VMul", "VDiv", "BAdd", "BSub", "BMul", "BDiv", "SAdd", "SSub", "SMul", "SDiv", "Sapyb", "XapybV", "XapybM", "XapybSM", "SapybM", "VOpM", "BOpM", "MemSet", "Nop"}
 OpOK(op) == op.k \in Kinds /\ op.t \in {1, 2}
 
 \* a freshly constructed system: two empty vectors with storage of their own, block as initialised by the driver
